@@ -36,30 +36,13 @@ def one(args):
                     if alpha._same(cur[k], reff[k]):
                         continue
                     try:
-                        a = equiv.normal_form(reff[k]).split('\n'); b = equiv.normal_form(cur[k]).split('\n')
-                    except Exception as e:
-                        out.append((k, 'unsupported', 0, 0)); continue
-                    if a == b:
-                        out.append((k, 'equiv', 0, len(a))); continue
-                    import re
-                    mask = lambda l: re.sub(r'(#|@|<|lv|after|tv|item|exc|tryjoin)\d+(\.\d+)?(in|g|h\d+)?', r'\1N', l)
-                    a = [mask(x) for x in a]; b = [mask(x) for x in b]
-                    sm = difflib.SequenceMatcher(None, a, b, autojunk=False)
-                    ch = sum(max(i2 - i1, j2 - j1) for tag, i1, i2, j1, j2 in sm.get_opcodes() if tag != 'equal')
-                    # source-level distance after renaming locals towards the reference
-                    ren = alpha.plan(cur[k], [tuple(x) for x in (alpha.table().get(rel) or {}).get(k, {}).get('locals', [])])
-                    import copy
-                    c2 = ast.parse(ast.unparse(cur[k])).body[0]
-                    for n_ in ast.walk(c2):
-                        if isinstance(n_, ast.Name) and n_.id in ren:
-                            n_.id = ren[n_.id]
-                    def lines(fn_):
-                        body = [x for x in fn_.body if not (isinstance(x, ast.Expr) and isinstance(x.value, ast.Constant))]
-                        return [l.strip() for st_ in body for l in ast.unparse(st_).split('\n')]
-                    sa_, sb_ = lines(reff[k]), lines(c2)
-                    sm2 = difflib.SequenceMatcher(None, sa_, sb_, autojunk=False)
-                    ch2 = sum(max(i2 - i1, j2 - j1) for tag, i1, i2, j1, j2 in sm2.get_opcodes() if tag != 'equal')
-                    ch = min(ch, ch2)
+                        a_ = equiv.normal_form(reff[k]).split('\n'); b_ = equiv.normal_form(cur[k]).split('\n')
+                        if a_ == b_:
+                            out.append((k, 'equiv', 0, len(a_))); continue
+                    except Exception:
+                        pass
+                    ch, lim = alpha.distance(cur[k], reff[k], [tuple(x) for x in (alpha.table().get(rel) or {}).get(k, {}).get('locals', [])])
+                    a = [0] * lim
                     out.append((k, 'differs', ch, len(a)))
         return sid, out
     finally:
